@@ -19,7 +19,7 @@ def wide_spec():
     schemes["basic"] = {"type": "basic"}
     schemes["oauth"] = {"type": "oauth2", "flow": "accessCode", "authorizationUrl": "https://example.com/a", "tokenUrl": "https://example.com/t",
                         "scopes": {("scope%d" % i): ("description %d" % i) for i in range(7)}}
-    defs = {("def%d" % i): {"type": "object", "properties": {("p%d" % j): {"type": "string", "x-order": j % 2} for j in range(7)}, "x-ext-%d" % i: "v"} for i in range(8)}
+    defs = {("def%d" % i): {"type": "object", "properties": {("p%d" % j): ({"type": "string", "x-order": 6 - j} if i % 2 else {"type": "string"}) for j in range(7)}, "x-ext-%d" % i: "v"} for i in range(8)}
     paths = {}
     for i, t in enumerate(tags):
         paths["/%s/{id}" % t] = {"post": {
